@@ -485,8 +485,13 @@ func IterateNaluAnnexb(nals []byte, handler func(nal []byte)) error {
 		start := prePos + preLength
 		pos, length := IterateNaluStartCode(nals, start)
 		if pos == -1 {
-			if start < len(nals) {
-				handler(nals[start:])
+			// trailing_zero_8bits (H.264 Annex B.1.1) behind the last nal are not part of it
+			end := len(nals)
+			for end > start && nals[end-1] == 0 {
+				end--
+			}
+			if start < end {
+				handler(nals[start:end])
 				return nil
 			} else {
 				return nazaerrors.Wrap(base.ErrAvc)
